@@ -112,7 +112,12 @@ func c03NormalizeWith(tools *c03Tools, def *ast.Document, op string, vars []byte
 	return c03Norm{Printed: out, Vars: string(doc.Input.Variables)}
 }
 
-func c03Validate(def *ast.Document, op string) string {
+func c03Validate(def *ast.Document, op string) (verdict string) {
+	defer func() {
+		if r := recover(); r != nil {
+			verdict = fmt.Sprintf("PANIC: %v", r)
+		}
+	}()
 	doc, rep := astparser.ParseGraphqlDocumentString(op)
 	if rep.HasErrors() {
 		return "parse: " + rep.Error()
